@@ -16,20 +16,28 @@ BOUNDED = "; remaining functions by a bounded run-time contract stand-in (labell
 
 # id: (ready, category, technique, level text, level_note, design_ref)
 PROPS = {
- "C01": (True, "proof", T_P + BOUNDED,
+ "C01": (True, "proof", T_P + "; " + T_C + BOUNDED,
          "Proved for all inputs: the whole leaf layer of the Python implementation (search, insert/replace/delete, "
-         "lookups, setdefault/pop, split, clear) against whole-view postconditions, plus _Tree._search and compare. "
-         "Bounded: the interior-node level of both implementations and the C leaf layer (hist_rt, model mode).",
-         "A1 Python semantics as encoded, A2 total order on keys, A3 persistent.__setattr__, A7 z3 + VC generator; "
-         "L-hist (refinement implies histories) is argued in DESIGN.md 5.4, not machine-checked", "7/C01"),
- "C02": (True, "proof", T_P + BOUNDED,
+         "lookups, setdefault/pop, split, clear) against whole-view postconditions, plus _Tree._search and compare; C: every "
+         "expansion of the binary-search macros BUCKET_SEARCH / BTREE_SEARCH in the integer-keyed translation units (F-SEARCH: found "
+         "<=> key at the returned index, absent => insertion point, interior nodes pick the child whose separator range holds the key, "
+         "reads in bounds, no int overflow, termination - for all lengths, contents and keys). "
+         "Bounded: the interior-node level of both implementations and the rest of the C leaf layer (hist_rt, model mode, incl. in-place "
+         "operators with self / repeating operands and rejected writes on empty trees).",
+         "A1 Python semantics as encoded, A2 total order on keys, A3 persistent.__setattr__, A5, A6, A7 z3 + VC generator; "
+         "F-SEARCH assumes the vector ascending at the start of a search and len <= INT_MAX/2; "
+         "L-hist (refinement implies histories) is argued in DESIGN.md 5.4, not machine-checked", "7/C01 and 13.2"),
+ "C02": (True, "proof", T_P + "; " + T_C + BOUNDED,
          "Proved (Python): _range for every bound/flag combination, keys/values slices, leaf minKey/maxKey against the interval oracle "
          "of the statement; at the interior level _Tree.maxKey(b) returns the greatest key <= b of the whole subtree also through "
          "stale separators and raises ValueError only if no key qualifies (order view: least/greatest key and key-set summaries of "
-         "the children, node-local). Bounded: _Tree.minKey, the lazy sequences (_TreeItems / BTreeItems), tree-level range search "
-         "of both implementations on every reached shape incl. stale separators (range_rt).",
+         "the children, node-local); _Tree.keys hands the lazy sequence exactly the requested interval (converted min, the overall "
+         "smallest / largest key for an exclusive omitted bound, unchanged flags, the start leaf found with the converted min); C: the "
+         "searches that locate a range end are exact (F-SEARCH on Bucket_findRangeEnd / BTree_findRangeEnd, integer-keyed units). "
+         "Bounded: _Tree.minKey, the lazy sequences (_TreeItems / BTreeItems), tree-level range search "
+         "of both implementations on every reached shape incl. stale separators and None as the smallest key (range_rt).",
          "A1, A2, A7; _Tree.minKey of a child subtree is an assumed contract in the order view; recorded finding: empty-leaf "
-         "minKey()/maxKey() raising IndexError in Python", "7/C02 and 12.11"),
+         "minKey()/maxKey() raising IndexError in Python; fixed this session: None as smallest key with an exclusive omitted min (5df0066)", "7/C02, 12.11 and 13"),
  "C03": (True, "proof", T_P + BOUNDED,
          "Proved (Python, all trees): every mutator of the interior-node layer (_Tree._set, _grow, _split, _split_root, _del, "
          "_deleteNextBucket; structural view, node-local with children abstracted by first-leaf / successor-link summaries) "
@@ -47,8 +55,10 @@ PROPS = {
          'A1, A2, A7; _SetIteration.__init__ over a leaf is an assumed contract; quick tier verifies the state-shape cases listed in evidence (all 27 per function in the thorough tier); recorded finding: malformed leaf states', "7/C07 and 12"),
  "C09": (True, "other", T_P + "; " + T_C + BOUNDED,
          "Both implementations proved against one contract where both proofs exist (Python leaf layer and tree entry "
-         "points convert first / report absence; C integer conversions F-CONV); agreement over histories is the "
-         "bounded relational stand-in (hist_rt twin mode).",
+         "points convert first / report absence; the _datatypes converters accept exactly the representable ints and return a plain "
+         "int - the C integer conversions F-CONV have the same accept set; binary searches: _BucketBase._search / _Tree._search and the "
+         "C macros (F-SEARCH) meet one contract; weightedUnion / weightedIntersection against the documented formula); agreement over "
+         "histories is the bounded relational stand-in (hist_rt twin mode).",
          "A1-A7; two recorded findings (TreeSet &= shape, empty-leaf minKey)", "7/C09"),
  "C10": (True, "proof", T_P + "; " + T_C + BOUNDED,
          'Proved for all strictly ascending operand sequences: Python union, intersection and difference return a new, strictly sorted container whose key set is exactly the mathematical result, None rules, operands unmodified; cursor and prefix-set lemmas proved; every loop head carries a vacuity guard (which found and removed an unsoundness of the earlier proofs, DESIGN 12.1). C: the set-algebra entry points access operand vectors only on activated nodes (T-USE). Bounded: C results, operators, in-place forms, plain iterables, lazy views, stored/ghost operands (setop_rt).',
@@ -63,10 +73,14 @@ PROPS = {
          'A1, A2, A7; attached:* obligations tie MERGE/MERGE_WEIGHT/MERGE_DEFAULT to _module_builder/_datatypes as read from source; _SetIteration.__init__ assumed', "7/C12 and 12"),
  "C13": (True, "proof", T_C + "; " + T_P + BOUNDED,
          "Proved, loop-free and complete per site: every integer and float conversion site of the C translation units "
-         "(accept exactly the representable ints, exact value, TypeError on reject); Python: tree and leaf entry points "
+         "(accept exactly the representable ints, exact value, TypeError on reject); Python: the converters of _datatypes.py "
+         "(I, U, L, Q, f, s, O, Any - what every family uses as _to_key / _to_value) for ALL Python objects: a plain int in the "
+         "declared range equal to the argument's integer value or TypeError, nothing else (found and fixed: int(item) vs "
+         "operator.index(item), 162ce2c); tree and leaf entry points "
          "convert before they mutate and report absence for unconvertible lookup keys. Bounded: boundary grid through "
-         "every entry point (conv_rt).",
-         "A4 API contracts of PyLong_AsLong & co., A5 clang AST == compiled code, A7; floats are opaque handles "
+         "every entry point, float families (conv_rt).",
+         "A4 API contracts of PyLong_AsLong & co., A5 clang AST == compiled code, A7; trusted: operator.index / int / struct pack "
+         "(pyvc/dtypes.py); floats are opaque handles "
          "(rounding facts not proved); recorded findings for float range, setstate, default-comparison lookups", "7/C13"),
  "C18": (True, "other", T_P + "; " + T_C + BOUNDED,
          "Proved (Python): Checker.check_sorted records an error exactly when a key violates its bounds or the order; _Tree._check returns normally iff the node-local pointer clauses hold and every child was checked with its successor's first bucket, and raises AssertionError only if a local clause fails. C: BTree_check_inner reads its children only when activated (T-USE). Bounded: valid trees (also stored, with every ghost pattern) accepted and every single corruption of the catalogue at every position of 2-4 level trees rejected, both implementations (checkers_rt).",
@@ -100,17 +114,19 @@ PROPS = {
          "has changed (faulty-comparison mode); C object-key TU: no pin and no local reference survives an error exit (T-PIN, T-REF). "
          "Bounded: interior nodes, contents-after-failure, refcounts for every n-th failing comparison (cmpfault_rt).",
          "A1-A7; recorded findings: separator comparison after the child's deletion, &= clear-then-update, TypeError swallowed by C leaf lookups", "7/C14"),
- "C15": (True, "other", T_C + "; bounded run-time contract stand-in (iter_rt), crash-isolated in child processes",
+ "C15": (True, "other", T_C + "; " + T_P + "; bounded run-time contract stand-in (iter_rt), crash-isolated in child processes",
          "Proved (C): every entry a lazy sequence or iterator hands out is read at an offset inside the leaf as it is now - the asserted "
          "precondition of getBucketEntry (0 <= i < b->len, harvested from the non-NDEBUG AST) holds at every call site for all cursor "
-         "states, i.e. whatever mutations happened between steps (M-IDX). Bounded: step outcomes {entry, stop, RuntimeError, IndexError}, "
+         "states, i.e. whatever mutations happened between steps (M-IDX). Python: every leaf mutator works in place on the list objects "
+         "a running iterator holds (same_lists clauses of _set / _del / _split). Bounded: step outcomes {entry, stop, RuntimeError, IndexError}, "
          "the Python generators, soundness and contents afterwards: interleavings of <= 4 steps / index reads with <= 4 mutations on 8-key "
          "trees at node sizes 2/2, 3/2, all kinds, both implementations (iter_rt).",
          "A4b (Python code run inside the step does not modify the leaf just checked), A5-A7; the cursor's constructor establishing "
          "currentoffset >= 0 and NULL-ness of the bucket pointer are not part of M-IDX", "7/C15 and 12.8"),
  "C16": (True, "other", T_C + BOUNDED,
          "Proved: the local reference discipline T-REF for all functions of the object-keyed/-valued TUs except 31 listed ones. "
-         "Bounded: slot-level ownership (refcount equation per call) over histories (refcount_rt). Memory bounds are not proved.",
+         "M-IDX: lazy sequences and iterators read a leaf only inside its current length (slots beyond it hold released references). "
+         "Bounded: slot-level ownership (refcount equation per call) over histories (refcount_rt). Memory bounds in general are not proved.",
          "A4 new/borrowed/steals table, A5-A7; functions outside the contract are listed in evidence; M-BND not discharged", "7/C16"),
  "C17": (True, "proof", T_C + "; bounded fault enumeration through the guarded allocation-failure hook (alloc_rt), every faulted call in its own process",
          "Proved for all inputs and every failing allocation: no container field is left pointing at a released block and "
@@ -158,9 +174,9 @@ def main():
             "add_only": True,
         },
         "engines": [
-            {"name": "pyvc", "path": "pyvc/", "serves_properties": ["C01", "C02", "C03", "C04", "C05", "C06", "C07", "C08", "C09", "C10", "C12", "C13", "C14", "C18", "C19"],
+            {"name": "pyvc", "path": "pyvc/", "serves_properties": ["C01", "C02", "C03", "C04", "C05", "C06", "C07", "C08", "C09", "C10", "C12", "C13", "C14", "C15", "C18", "C19"],
              "kind_free_text": "Engine P: symbolic execution of /repo/src/BTrees/*.py read with ast on every run against sidecar contracts (contracts/py_*.py); one z3 query per clause and path; grounded refutation + native replay"},
-            {"name": "cvc", "path": "cvc/", "serves_properties": ["C05", "C08", "C09", "C10", "C11", "C13", "C14", "C16", "C17", "C18"],
+            {"name": "cvc", "path": "cvc/", "serves_properties": ["C01", "C02", "C04", "C05", "C08", "C09", "C10", "C11", "C13", "C14", "C15", "C16", "C17", "C18"],
              "kind_free_text": "Engine C: symbolic execution with state merging of the clang JSON AST of each _XXBTree.c translation unit; obligation families T-PIN, T-USE, F-CONV, T-REF, T-RC, M-ALLOC, F-SORT"},
             {"name": "rtc", "path": "rtc/", "serves_properties": sorted(PROPS),
              "kind_free_text": "bounded run-time contract stand-ins over stated finite scopes; labelled bounded, never counted as proved"},
